@@ -2,6 +2,7 @@ package policy
 
 import (
 	"fmt"
+	"strings"
 
 	"github.com/ipld/go-ipld-prime"
 	"github.com/ipld/go-ipld-prime/codec/dagjson"
@@ -18,7 +19,7 @@ func FromIPLD(node datamodel.Node) (Policy, error) {
 		return nil, fmt.Errorf("policy contains integer values outside safe bounds: %w", err)
 	}
 
-	return statementsFromIPLD("/", node)
+	return statementsFromIPLD(&ipldPath{seg: "/"}, node)
 }
 
 func FromDagJson(json string) (Policy, error) {
@@ -29,30 +30,30 @@ func FromDagJson(json string) (Policy, error) {
 	return FromIPLD(nodes)
 }
 
-func statementFromIPLD(path string, node datamodel.Node) (Statement, error) {
+func statementFromIPLD(path *ipldPath, node datamodel.Node) (Statement, error) {
 	// sanity checks
 	if node.Kind() != datamodel.Kind_List {
-		return nil, ErrNotATuple(path)
+		return nil, ErrNotATuple(path.String())
 	}
 	if node.Length() != 2 && node.Length() != 3 {
-		return nil, ErrUnrecognizedShape(path)
+		return nil, ErrUnrecognizedShape(path.String())
 	}
 
 	// extract operator
 	opNode, _ := node.LookupByIndex(0)
 	if opNode.Kind() != datamodel.Kind_String {
-		return nil, ErrNotAString(path)
+		return nil, ErrNotAString(path.String())
 	}
 	op := must.String(opNode)
 
 	arg2AsSelector := func(op string) (selector.Selector, error) {
 		nd, _ := node.LookupByIndex(1)
 		if nd.Kind() != datamodel.Kind_String {
-			return nil, ErrNotAString(combinePath(path, op, 1))
+			return nil, ErrNotAString(combinePath(path, op, 1).String())
 		}
 		sel, err := selector.Parse(must.String(nd))
 		if err != nil {
-			return nil, ErrInvalidSelector(combinePath(path, op, 1), err)
+			return nil, ErrInvalidSelector(combinePath(path, op, 1).String(), err)
 		}
 		return sel, nil
 	}
@@ -77,7 +78,7 @@ func statementFromIPLD(path string, node datamodel.Node) (Statement, error) {
 			return connective{kind: op, statements: statement}, nil
 
 		default:
-			return nil, ErrUnrecognizedOperator(path, op)
+			return nil, ErrUnrecognizedOperator(path.String(), op)
 		}
 	case 3:
 		switch op {
@@ -96,11 +97,11 @@ func statementFromIPLD(path string, node datamodel.Node) (Statement, error) {
 			}
 			pattern, _ := node.LookupByIndex(2)
 			if pattern.Kind() != datamodel.Kind_String {
-				return nil, ErrNotAString(combinePath(path, op, 2))
+				return nil, ErrNotAString(combinePath(path, op, 2).String())
 			}
 			g, err := parseGlob(must.String(pattern))
 			if err != nil {
-				return nil, ErrInvalidPattern(combinePath(path, op, 2), err)
+				return nil, ErrInvalidPattern(combinePath(path, op, 2).String(), err)
 			}
 			return wildcard{selector: sel, pattern: g}, nil
 
@@ -117,18 +118,18 @@ func statementFromIPLD(path string, node datamodel.Node) (Statement, error) {
 			return quantifier{kind: op, selector: sel, statement: statement}, nil
 
 		default:
-			return nil, ErrUnrecognizedOperator(path, op)
+			return nil, ErrUnrecognizedOperator(path.String(), op)
 		}
 
 	default:
-		return nil, ErrUnrecognizedShape(path)
+		return nil, ErrUnrecognizedShape(path.String())
 	}
 }
 
-func statementsFromIPLD(path string, node datamodel.Node) ([]Statement, error) {
+func statementsFromIPLD(path *ipldPath, node datamodel.Node) ([]Statement, error) {
 	// sanity checks
 	if node.Kind() != datamodel.Kind_List {
-		return nil, ErrNotATuple(path)
+		return nil, ErrNotATuple(path.String())
 	}
 	if node.Length() == 0 {
 		return nil, nil
@@ -138,7 +139,7 @@ func statementsFromIPLD(path string, node datamodel.Node) ([]Statement, error) {
 
 	for i := int64(0); i < node.Length(); i++ {
 		nd, _ := node.LookupByIndex(i)
-		statement, err := statementFromIPLD(fmt.Sprintf("%s%d/", path, i), nd)
+		statement, err := statementFromIPLD(path.child(fmt.Sprintf("%d/", i)), nd)
 		if err != nil {
 			return nil, err
 		}
@@ -269,6 +270,31 @@ func statementToIPLD(statement Statement) (datamodel.Node, error) {
 	return list.Build(), nil
 }
 
-func combinePath(prev string, operator string, index int) string {
-	return fmt.Sprintf("%s%d-%s/", prev, index, operator)
+func combinePath(prev *ipldPath, operator string, index int) *ipldPath {
+	return prev.child(fmt.Sprintf("%d-%s/", index, operator))
+}
+
+// ipldPath is the position, in the policy being decoded, that error messages
+// refer to. It is only rendered when an error is actually reported: building
+// the full string at every nesting level made the memory used to decode a
+// nested policy quadratic in its size.
+type ipldPath struct {
+	parent *ipldPath
+	seg    string
+}
+
+func (p *ipldPath) child(seg string) *ipldPath {
+	return &ipldPath{parent: p, seg: seg}
+}
+
+func (p *ipldPath) String() string {
+	var segs []string
+	for cur := p; cur != nil; cur = cur.parent {
+		segs = append(segs, cur.seg)
+	}
+	var res strings.Builder
+	for i := len(segs) - 1; i >= 0; i-- {
+		res.WriteString(segs[i])
+	}
+	return res.String()
 }
